@@ -279,6 +279,13 @@ pub struct SessionCase {
     /// and every backend reply is 9 KiB, so the proxy's writes towards the client hit back-pressure
     #[serde(default)]
     pub lazy_reader: bool,
+    /// session_timeout of the proxy in milliseconds (0 = none): an idle connection is closed after
+    /// it, one with requests in flight must not be
+    #[serde(default)]
+    pub session_timeout_ms: u16,
+    /// the client stays silent for this long after connecting (far shorter than any generated session timeout)
+    #[serde(default)]
+    pub pause_before_write_ms: u16,
 }
 
 pub fn session_strategy() -> impl Strategy<Value = SessionCase> {
@@ -291,8 +298,10 @@ pub fn session_strategy() -> impl Strategy<Value = SessionCase> {
         1u8..4,
         0u8..2,
         prop::bool::weighted(0.25),
+        prop_oneof![1 => Just(0u16), 1 => 2000u16..4000],
+        prop_oneof![2 => Just(0u16), 1 => 1u16..30],
     )
-        .prop_map(|(mut conns, mut rest, kinds, write_fragments, batch, backend_conn_num, shapes, lazy_reader)| {
+        .prop_map(|(mut conns, mut rest, kinds, write_fragments, batch, backend_conn_num, shapes, lazy_reader, session_timeout_ms, pause_before_write_ms)| {
             rest.refuse = false;
             // real time: keep latencies short
             for p in conns.iter_mut().chain(std::iter::once(&mut rest)) {
@@ -302,11 +311,31 @@ pub fn session_strategy() -> impl Strategy<Value = SessionCase> {
                 p.pipe = 0;
             }
             let shapes = if lazy_reader { 2 } else { shapes };
-            SessionCase { script: Script { conns, rest, shapes }, kinds, write_fragments, batch, backend_conn_num, lazy_reader }
+            // a client that stays silent for longer than the session timeout may be disconnected: the
+            // lazy reader (150 ms of silence) runs without one
+            let session_timeout_ms = if lazy_reader { 0 } else { session_timeout_ms };
+            SessionCase { script: Script { conns, rest, shapes }, kinds, write_fragments, batch, backend_conn_num, lazy_reader, session_timeout_ms, pause_before_write_ms }
         })
 }
 
 pub fn check_session(case: &SessionCase, obs: &mut Obs) -> Result<(), Fail> {
+    // the one clause that depends on real time (premature session timeout) is only believed after
+    // three failing attempts (one while shrinking)
+    let attempts = if IS_SHRINKING.with(|f| f.get()) { 1 } else { 3 };
+    let mut last = Ok(());
+    for _ in 0..attempts {
+        let mut o = Obs::default();
+        last = check_session_once(case, &mut o);
+        let retry = matches!(&last, Err(f) if f.signature == "C08:connection-closed-before-session-timeout");
+        if !retry {
+            *obs = o;
+            return last;
+        }
+    }
+    last
+}
+
+fn check_session_once(case: &SessionCase, obs: &mut Obs) -> Result<(), Fail> {
     use crate::engines::codec::{ref_parse, RVal, Verdict};
     use crate::engines::world::{cmd, cmd_to_resp, Net};
     let shapes = case.script.shapes;
@@ -335,9 +364,13 @@ pub fn check_session(case: &SessionCase, obs: &mut Obs) -> Result<(), Fail> {
         let listener = lsock.listen(8).map_err(|e| Fail::new("harness:bind", e.to_string()))?;
         let addr = listener.local_addr().map_err(|e| Fail::new("harness:bind", e.to_string()))?;
         let s2 = session.clone();
+        let session_timeout_ms = case.session_timeout_ms;
+        if session_timeout_ms > 0 {
+            obs.class("session-timeout-configured");
+        }
         let server = tokio::spawn(async move {
             if let Ok((sock, _)) = listener.accept().await {
-                let r = handle_session(s2, sock, None).await;
+                let r = handle_session(s2, sock, if session_timeout_ms == 0 { None } else { Some(Duration::from_millis(session_timeout_ms as u64)) }).await;
                 if std::env::var("VERIF_DEBUG").is_ok() {
                     eprintln!("handle_session ended: {:?}", r);
                 }
@@ -362,13 +395,28 @@ pub fn check_session(case: &SessionCase, obs: &mut Obs) -> Result<(), Fail> {
             undermoon::protocol::resp_to_buf(&mut out, &cmd_to_resp(&c)).expect("enc");
             expected.push((*k, if *k == 0 { format!("re:key{}", i).into_bytes() } else { format!("echo{}", i).into_bytes() }));
         }
+        if case.pause_before_write_ms > 0 {
+            tokio::time::sleep(Duration::from_millis(case.pause_before_write_ms as u64)).await;
+        }
         // write in fragments
         let mut pos = 0;
         let mut fi = 0;
         while pos < out.len() {
             let n = if case.write_fragments.is_empty() { out.len() - pos } else { (case.write_fragments[fi % case.write_fragments.len()] as usize).min(out.len() - pos) };
             fi += 1;
-            sock.write_all(&out[pos..pos + n]).await.map_err(|e| Fail::new("harness:write", e.to_string()))?;
+            if let Err(e) = sock.write_all(&out[pos..pos + n]).await {
+                if case.session_timeout_ms > 0 {
+                    fail!(
+                        "C08:connection-closed-before-session-timeout",
+                        "session_timeout is {} ms; the client was silent for {} ms after connecting and was still writing its {} requests when the proxy closed the connection ({}): complete requests get no reply",
+                        case.session_timeout_ms,
+                        case.pause_before_write_ms,
+                        expected.len(),
+                        e
+                    );
+                }
+                return Err(Fail::new("harness:write", e.to_string()));
+            }
             pos += n;
             if fi % 3 == 0 {
                 tokio::task::yield_now().await;
@@ -382,15 +430,18 @@ pub fn check_session(case: &SessionCase, obs: &mut Obs) -> Result<(), Fail> {
         // read the replies
         let mut buf: Vec<u8> = vec![];
         let mut replies: Vec<RVal> = vec![];
+        let mut closed_by_peer = false;
         // (while a failing case is being shrunk a shorter allowance keeps the search affordable)
         let allowance = if IS_SHRINKING.with(|f| f.get()) { 4 } else { 20 };
         let deadline = tokio::time::Instant::now() + Duration::from_secs(allowance);
         while replies.len() < expected.len() {
             let mut chunk = [0u8; 4096];
             let n = match tokio::time::timeout_at(deadline, sock.read(&mut chunk)).await {
-                Ok(Ok(0)) => break,
+                Ok(Ok(0)) | Ok(Err(_)) => {
+                    closed_by_peer = true;
+                    break;
+                }
                 Ok(Ok(n)) => n,
-                Ok(Err(_)) => break,
                 Err(_) => break,
             };
             buf.extend_from_slice(&chunk[..n]);
@@ -398,6 +449,16 @@ pub fn check_session(case: &SessionCase, obs: &mut Obs) -> Result<(), Fail> {
                 buf.drain(..used);
                 replies.push(v);
             }
+        }
+        if replies.len() < expected.len() && case.session_timeout_ms > 0 && closed_by_peer {
+            fail!(
+                "C08:connection-closed-before-session-timeout",
+                "session_timeout is {} ms; the client was silent for {} ms after connecting, wrote {} requests and had read {} replies when the proxy closed the connection",
+                case.session_timeout_ms,
+                case.pause_before_write_ms,
+                expected.len(),
+                replies.len()
+            );
         }
         ensure!(
             replies.len() == expected.len(),
@@ -499,7 +560,7 @@ pub fn enumerated_cases() -> Vec<NodeCase> {
 pub const RULE_ENUM: &str = "[enumerated] fixed pipelines (6 requests in one burst; 4+4 in two bursts) x every cut position of the first connection's reply byte stream (0..=total bytes) and every cut-after-request count x {disabled, fixed, dynamic} batching x 3 fragmentations x 2 coalescing factors x second connection {clean, refused once, cut again at 3 positions, cut on 5 consecutive connections}; same oracle as backend-node; exhaustive over this grid";
 
 pub const RULE_NODE: &str = "[backend-node] the real BackendNode/handle_backend with the real ReplyCommitHandler and real CmdCtx tasks over a scripted backend behind the ConnFactory seam (real RespCodec over an in-memory duplex byte stream): pipelines of up to ~60 requests with unique ids in generated bursts; per connection a generated plan: refuse, reply latency, byte-level fragmentation of the reply stream, coalescing of several replies into one write, stall after n requests (backend_timeout 50/500/3000 ms), cut after byte n of the reply stream / after request m, then the next connection's plan; batching in {disabled, fixed, dynamic}; oracle: every request resolves exactly once within bounded virtual time, a successful reply carries the request's own id, otherwise an error; the backend sees a request at most 4 times; non-trivial = a cut strictly inside the reply stream with requests on both sides, or fragmentation inside a packet";
-pub const RULE_SESSION: &str = "[session] the full stack over loopback TCP: real handle_session -> Session -> ForwardHandler -> scripted backend (backend_conn_num 1..3); pipelined requests (backend GETs interleaved with locally answered PING/ECHO) written in generated fragments; oracle: reply k answers request k (own key / own echo / OK / an error for a failed backend exchange), counts equal; a quarter of the cases use a LAZY READER: small socket buffers, 9 KiB backend replies, the client pipelines everything and starts reading 150 ms later (the proxy's writes hit back-pressure); non-trivial = a cut or fragmentation";
+pub const RULE_SESSION: &str = "[session] the full stack over loopback TCP: real handle_session -> Session -> ForwardHandler -> scripted backend (backend_conn_num 1..3); pipelined requests (backend GETs interleaved with locally answered PING/ECHO) written in generated fragments; oracle: reply k answers request k (own key / own echo / OK / an error for a failed backend exchange), counts equal; half of the cases run with a session_timeout of 2..4 s and a client that is silent for 0..30 ms after connecting: the connection must not be closed before the client has been silent for a full timeout (believed only after three failing attempts, real time); a quarter of the cases use a LAZY READER: small socket buffers, 9 KiB backend replies, the client pipelines everything and starts reading 150 ms later (the proxy's writes hit back-pressure); non-trivial = a cut or fragmentation";
 
 pub fn run(ctx: &Ctx, findings: &Findings) -> PropReport {
     let mut subs = vec![];
